@@ -38,6 +38,21 @@ type bucketObject struct {
 	versions *skiplist.SkipList
 }
 
+// promote makes the most recent archived version the current one after the
+// current version has been removed, so that an object never sits in the
+// bucket without a current version.
+func (b *bucketObject) promote() {
+	if b.data != nil || b.versions == nil || b.versions.Len() == 0 {
+		return
+	}
+	var last *bucketData
+	for it := b.versions.Iterator(); it.Next(); {
+		last = it.Value().(*bucketData)
+	}
+	b.versions.Delete(last.versionID)
+	b.data = last
+}
+
 func (b *bucketObject) Iterator() *bucketObjectIterator {
 	var iter skiplist.Iterator
 	if b.versions != nil {
@@ -243,7 +258,8 @@ func (b *bucket) rm(name string, at time.Time) (result gofakes3.ObjectDeleteResu
 
 	} else {
 		object.data = nil
-		if object.versions == nil || object.versions.Len() == 0 {
+		object.promote()
+		if object.data == nil {
 			b.objects.Delete(name)
 		}
 	}
@@ -260,6 +276,7 @@ func (b *bucket) rmVersion(name string, versionID gofakes3.VersionID, at time.Ti
 		result.VersionID = versionID
 		result.IsDeleteMarker = object.data.deleteMarker
 		object.data = nil
+		object.promote()
 
 	} else if object.versions != nil {
 		versionIface, ok := object.versions.Delete(versionID)
